@@ -18,13 +18,14 @@
 -/
 namespace NanoVerif.Loss
 
-/-- `std::exp`, `std::log`, `std::log1p`, `std::atan` (libm at `Float`; `Real.exp`, `Real.log`, `log (1 + ·)`,
-    `Real.arctan` in the proofs) -/
+/-- `std::exp`, `std::log`, `std::log1p`, `std::atan`, `std::sqrt` (libm at `Float`; `Real.exp`, `Real.log`,
+    `log (1 + ·)`, `Real.arctan`, `Real.sqrt` in the proofs) -/
 class Transc (α : Type) where
   exp : α → α
   log : α → α
   log1p : α → α
   atan : α → α
+  sqrt : α → α
 
 /-- core `Float` has no `log1p`; this is the classical accurate evaluation of `log(1+y)` through `log`
     (exact when `1 + y` rounds to 1, otherwise corrected by `y / ((1+y) - 1)`) -/
@@ -32,7 +33,7 @@ def log1pFloat (y : Float) : Float :=
   let u := 1.0 + y
   if u == 1.0 then y else Float.log u * y / (u - 1.0)
 
-instance : Transc Float := ⟨Float.exp, Float.log, log1pFloat, Float.atan⟩
+instance : Transc Float := ⟨Float.exp, Float.log, log1pFloat, Float.atan, Float.sqrt⟩
 
 instance natCastFloat : NatCast Float := ⟨Float.ofNat⟩
 
